@@ -27,9 +27,10 @@ TOL = 1e-11
 
 
 def cases(tier):
-    geos = [(1.20, True, 'tight'), (1.08, True, 'mid'), (1.35, False, 'loose')]
+    # the last one: a wire of a tenth of the pin gap (some 0.05 mm: a thin wire is still a wire)
+    geos = [(1.20, True, 'tight'), (1.08, True, 'mid'), (1.35, False, 'loose'), (1.08, 0.1, 'mid')]
     if tier == 'thorough':
-        geos = [(pd, w, c) for pd in (1.08, 1.20, 1.35) for w in (True, False)
+        geos = [(pd, w, c) for pd in (1.08, 1.20, 1.35) for w in (True, False, 0.1, 0.02)
                 for c in ('tight', 'mid', 'loose')]
     out = []
     for rings in range(2, 21):
